@@ -366,9 +366,10 @@ func fixedWorld(i int) *world {
 			a: {Balance: 1, Code: codeA},
 			b: {Balance: 2, Slots: map[common.Hash][]byte{s1: slotVal(1), s2: slotVal(1)}},
 		}
+		// (b's storage differed too: outdated nodes at the storage root and at one of its leaves)
 		o := stateContent{
 			a: {Balance: 1, Code: codeA},
-			b: {Balance: 2, Slots: map[common.Hash][]byte{s1: slotVal(1), s2: slotVal(1)}},
+			b: {Balance: 2, Slots: map[common.Hash][]byte{s1: slotVal(1), s2: slotVal(6)}},
 			c: {Balance: 3},
 		}
 		return newWorldFrom(t, o)
@@ -407,7 +408,7 @@ func randomWorld(r interface{ Intn(int) int }) *world {
 		switch r.Intn(5) {
 		case 0:
 			continue
-		case 1:
+		case 1, 2:
 			b := &acct{Balance: a.Balance + 1, Slots: map[common.Hash][]byte{}, Code: a.Code}
 			skeys := make([]common.Hash, 0, len(a.Slots))
 			for s := range a.Slots {
